@@ -52,6 +52,11 @@ def model_result(res):
 
 def compare(ctx, name, level, impl, model, case, theorem, sig, scale=1.0):
     """three points: accepted / refused, shape, entries"""
+    if level == "aux" and impl["refused"] != model["refused"]:
+        # whether a call form OUTSIDE the property's quantifier (mixed ranks, rank-3, unequal batches) is accepted or refused is not
+        # constrained: recorded, no verdict (a rewrite that accepts more forms, or refuses earlier, keeps the property)
+        ctx.info(name + ": accepted / refused (form outside the quantifier)", impl["refused"], model["refused"])
+        return
     ok = ctx.point(name + ": accepted / refused", level, "refused" if impl["refused"] else "accepted",
                    "refused" if model["refused"] else "accepted", case, exact=True, theorem=theorem, sig=sig + "/outcome")
     if not ok or impl["refused"]:
